@@ -85,6 +85,12 @@ def run(ctx):
     if ctx.only:
         return res
 
+    # S-BOUND (zero is a maximum order too): the limit is compared with None, never tested for truthiness
+    from .common import optional_number_truthiness, pattern_lint
+    pattern_lint(res, PROP, "S-BOUND", [f for _, f in sorted(sc_methods.items())], optional_number_truthiness,
+                 "def f(self, x, max_order=None):\n    if max_order and len(x) > max_order + 1:\n        return None\n    return x",
+                 lambda n: f"`{unparse(n, 60)}` tests an optional numeric limit for truthiness; 0 is an admissible maximum order and takes the branch meant for None, so nothing is truncated and simplices above the requested order are added",
+                 "truthiness tests of optional numeric limits")
     check_sup(repo, res, sc_methods)
     check_close_method(repo, res, sc_methods)
     check_frozenset(repo, res, sc_methods, simplex_helpers, face_helpers)
